@@ -162,10 +162,12 @@ class Engine:
     def add(self, cfg, rounds, nsock, seed=SEED):
         self.sessions.append({"cfg": cfg, "seed": seed, "rounds": rounds, "nsock": nsock})
 
-    def run(self):
+    def run(self, shards=None):
+        """shards=1: all sessions run one after another in ONE harness process (state that survives a
+        Server object — statics, caches — is shared between them)"""
         ctx = self.ctx
         lines = [session_lines(s["cfg"], s["seed"], s["rounds"], s["nsock"]) for s in self.sessions]
-        impl = vlib.run_sessions(vlib.HARNESS, lines, "impl")
+        impl = vlib.run_sessions(vlib.HARNESS, lines, "impl", **({"shards": shards} if shards else {}))
         mlines = []
         for l, il in zip(lines, impl):
             pk = [t[3:] for t in il[0].split() if t.startswith("pk=")]
